@@ -1210,11 +1210,13 @@ func (e *Engine) opAddHardCert() {
 
 func (e *Engine) opLock() {
 	p := []byte("pw-" + gen.Ident(e.R, 6))
-	switch e.R.Intn(5) {
+	switch e.R.Intn(7) {
 	case 0:
 		p = []byte{}
 	case 1:
 		p = gen.Bytes(e.R, 1024)
+	case 2:
+		p = append(p, []string{"\n", "\r\n", "\r", " ", "\x00", "\n\n"}[e.R.Intn(6)]...)
 	}
 	ub := e.snapshotU()
 	nreq := e.Ag.NumRequests()
@@ -1261,6 +1263,12 @@ func (e *Engine) opUnlock() {
 		}
 		if e.R.Intn(5) == 0 && len(e.kpass) > 1 {
 			p = e.kpass[:len(e.kpass)-1]
+		}
+		if e.R.Intn(4) == 0 {
+			p = append(append([]byte{}, e.kpass...), []string{"\n", "\r\n", "\r", " "}[e.R.Intn(4)]...)
+		}
+		if e.R.Intn(6) == 0 {
+			p = bytes.TrimRight(e.kpass, "\r\n ")
 		}
 	}
 	right := e.klocked && bytes.Equal(p, e.kpass)
